@@ -96,6 +96,16 @@ var witnesses = []witness{
 		sx: "( P 1 ( FN 3 ( ( a i32 ) ( b i32 ) ) ( ( D h0 i32 ) ( D h1 i32 ) ( D h2 i32 ) ( A ( ( h0 ) ) ( B add ( V a ) ( V b ) ) ) ( A ( ( h1 ) ) ( V a ) ) ( A ( ( h2 ) ) ( V b ) ) ( R ( V h0 ) ( V h1 ) ( V h2 ) ) ) ) ( FN 3 ( ( a i32 ) ( b i32 ) ) ( ( R ( K 0 ( V a ) ( V b ) ) ) ) ) )"},
 	{name: "lang-var2", file: "testsuite/lang/var2.mpcl", nzArg: -1, tys: []*Ty{tInt(32), tInt(32)},
 		sx: "( P 0 ( FN 1 ( ( a i32 ) ( b i32 ) ) ( ( D r i32 ( L i32 42 ) ) ( A ( ( r ) ) ( B add ( B add ( V r ) ( V a ) ) ( V b ) ) ) ( R ( V r ) ) ) ) )"},
+	// package-level declarations (Model/MpclPkg.lean; Props/C03Pkg.lean pVar3, pShadow)
+	{name: "lang-var3", file: "testsuite/lang/var3.mpcl", nzArg: -1, tys: []*Ty{tUint(32), tUint(32)},
+		sx: "( PG 0 ( ( G base u32 42 ) ) ( FN 1 ( ( a u32 ) ( b u32 ) ) ( ( R ( B add ( B add ( V base ) ( V a ) ) ( V b ) ) ) ) ) )"},
+	{name: "pkg-shadow-then-branch", nzArg: -1, tys: []*Ty{tInt(8), tInt(8)},
+		src: "package main\n\nvar lim int8 = 100\n\nconst step = 3\n\nfunc clamp(v int8) int8 {\n\tif v > lim {\n\t\treturn lim\n\t}\n\treturn v\n}\n\n" +
+			"func main(a, b int8) (int8, int8, int8) {\n\tt := lim\n\tvar lim int8 = a + step\n\tr := b\n\tif a > b {\n\t\tr = a\n\t\tlim = lim + 1\n\t}\n\treturn lim + r, clamp(b), t\n}\n",
+		sx: "( PG 1 ( ( G lim i8 100 ) ( GC step i8 3 ) ) ( FN 1 ( ( v i8 ) ) ( ( IF ( B gt ( V v ) ( V lim ) ) ( ( R ( V lim ) ) ) ( ) ) ( R ( V v ) ) ) ) " +
+			"( FN 3 ( ( a i8 ) ( b i8 ) ) ( ( DEF ( t ) ( V lim ) ) ( D lim i8 ( B add ( V a ) ( V step ) ) ) ( DEF ( r ) ( V b ) ) " +
+			"( IF ( B gt ( V a ) ( V b ) ) ( ( A ( ( r ) ) ( V a ) ) ( A ( ( lim ) ) ( B add ( V lim ) ( L i8 1 ) ) ) ) ( ) ) " +
+			"( R ( B add ( V lim ) ( V r ) ) ( K 0 ( V b ) ) ( V t ) ) ) ) )"},
 }
 
 func modeWitness(args []string) {
